@@ -6,6 +6,7 @@ import OrbitModel.Proofs.GenEqLoad
 import OrbitModel.Proofs.LoadRejoin
 import OrbitModel.Proofs.LoadMore
 import OrbitModel.Proofs.GenEqLoadJoin
+import OrbitModel.Proofs.Refetch
 /-!
 # C15 — `Load(n)` shows the newest `min(n, total)` entries, in order; `n ≤ 0` loads all; never panics
 
@@ -122,5 +123,28 @@ theorem pinned_tree_panicked_or_emptied :
 (`held`, before the access and signature checks), merges without a trim and asks for the trim only
 after looking at the listing — the steps `loadHead` and `missingFetch` model (F30, F36) -/
 theorem load_steps_tied_to_go_text : Gen.loadJoinOrder = Order.loadJoin := gen_loadJoin_order
+
+/-- **entries that `Load` leaves out do not count against the limit** (after the `fix:` commit, finding
+F57). The bounded fetcher applies the limit to everything it reaches; `Load` asks again — for as many
+more as were left out — until the fetch keeps at least `amount` entries, or came back shorter than asked
+(the whole log), or left nothing out. For every fetcher that returns at most what it is asked for and at
+most the `T` entries there are, the loop ends within `T + 1` rounds, in one of those three cases. -/
+theorem limited_load_fetches_until_the_limit_is_met (fetchN : Nat → OMap) (good : Entry → Bool) (amount T : Nat)
+    (hle : ∀ n, (fetchN n).length ≤ n) (hT : ∀ n, (fetchN n).length ≤ T) (len : Nat) :
+    Refetch.kept good (fetchN (Refetch.loop fetchN good amount (T + 1) len)) ≥ amount ∨
+    (fetchN (Refetch.loop fetchN good amount (T + 1) len)).length < Refetch.loop fetchN good amount (T + 1) len ∨
+    Refetch.refused good (fetchN (Refetch.loop fetchN good amount (T + 1) len)) = 0 :=
+  Refetch.loop_keeps_enough fetchN good amount T hle hT len
+
+/-- Refutation witness for `Load` as it was (one fetch): of the 3 newest entries one belongs to another
+log: 2 are kept although the log has 4; the loop asks for 4 and keeps 3 (replayed on the real store:
+corpus/C15/f57) -/
+theorem filtered_entry_counted_against_the_limit_before_the_fix :
+    let e (h : Nat) (lg : Nat) : Entry := { hash := h, logId := lg, time := h, cid := 0, next := [] }
+    let all : OMap := [e 5 1, e 4 7, e 3 1, e 2 1, e 1 1]
+    let fetchN : Nat → OMap := fun n => all.take n
+    let good : Entry → Bool := fun x => x.logId == 1
+    Refetch.kept good (fetchN 3) = 2 ∧ Refetch.loop fetchN good 3 6 3 = 4 ∧ Refetch.kept good (fetchN 4) = 3 :=
+  Refetch.one_fetch_kept_too_few
 
 end Orbit.C15
